@@ -262,6 +262,10 @@ class NewStyleField(Field, np.lib.mixins.NDArrayOperatorsMixin):
 
         inputs = _unwrap(inputs)
 
+        # Fields can also be passed as keyword arguments (eg. `where`). Numpy dispatches
+        # on those as well, so they need to be unwrapped to avoid infinite recursion.
+        kwargs = _unwrap(kwargs)
+
         if out:
             kwargs['out'] = tuple(x.data if is_field(x) else x for x in out)
 
@@ -273,6 +277,9 @@ class NewStyleField(Field, np.lib.mixins.NDArrayOperatorsMixin):
         # The current code is fine for most ufuncs.
         if isinstance(result, np.ndarray):
             return Field(result, self.grid)
+        elif isinstance(result, tuple):
+            # Ufuncs with multiple outputs (eg. divmod, modf, frexp).
+            return tuple(Field(x, self.grid) if isinstance(x, np.ndarray) else x for x in result)
         else:
             return result
 
@@ -291,6 +298,7 @@ class NewStyleField(Field, np.lib.mixins.NDArrayOperatorsMixin):
 
     def __array_function__(self, func, types, args, kwargs):
         args = _unwrap(args)
+        kwargs = _unwrap(kwargs)
 
         result = func(*args, **kwargs)
 
